@@ -2,6 +2,7 @@
 from __future__ import annotations
 
 import ast
+import re
 from itertools import product
 from typing import Dict, List, Optional, Set, Tuple
 
@@ -357,6 +358,10 @@ def rule_normaliser(ctx: Ctx) -> None:
                 ctx.check(raised, "C15-normaliser", name, "nested-len", "a nested list with an inner list of the wrong length is not rejected (padding / truncation)", fi=fi)
             elif badlen is False:
                 rows["nested"] += 1
+                comp_form = re.match(r"^\[(\w+)\*num_elementsiflen\(\1\)==1else\1for\1inthreshold\]$", strip_v(rv)) is not None
+                if comp_form:
+                    ctx.check(not raised, "C15-normaliser", name, "nested", "a well-formed nested list is rejected", fi=fi)
+                    continue
                 ctx.check(not raised and strip_v(rv) == "threshold_list", "C15-normaliser", name, "nested", f"a well-formed nested list returns `{rv}`", fi=fi)
                 lp = [e for e in p.effects if e.kind == "loop"]
                 ctx.require(len(lp) == 1, f"{name}: row loop not found")
